@@ -143,6 +143,8 @@ def prop_case(case):
     # subset summary
     k = rnd.randint(1, len(nodes))
     subset = rnd.sample(nodes, k)
+    if all(hist[u][1][0] not in sts for u in subset):
+        subset = subset + [u for u in nodes if hist[u][1][0] in sts][:1]       # at least one node that carries a reported status
     try:
         form = rnd.choice(['list', 'list', 'tuple', 'iter', 'generator', 'set'])      # 'the nodes that we want to focus on': any iterable, also one-shot
         given = {'list': list(subset), 'tuple': tuple(subset), 'iter': iter(list(subset)), 'generator': (u for u in list(subset)),
